@@ -1,7 +1,823 @@
 /-
-  Property C09 — theorems about QEModel.C09 (stub; to be filled in).
+  Property C09 — Bellman operator, policy evaluation, backward induction, form
+  conversion and constructor validation of `DiscreteDP`: theorems about QEModel.C09.
+
+  Scalars: `K` is any linearly ordered type with `0, +, *` (the Bellman / recursion
+  theorems use nothing else), a linearly ordered field where division is needed.
+  `Ext K` is `{-inf} ∪ K` with the order of IEEE doubles; `¬ x < y` reads `y ≤ x`.
 -/
 import QEModel.C09
+import QEProofs.Lemmas.C09Max
+import QEProofs.Lemmas.C09Bellman
+import QEProofs.Lemmas.C09Backward
+import QEProofs.Lemmas.C09Policy
+import QEProofs.Lemmas.C09Indptr
+import QEProofs.Lemmas.C09Ctor
+import QEProofs.Lemmas.C09Resort
+import QEProofs.Lemmas.C09Forms
+import QEProofs.Lemmas.C09Feasible
+import QEProofs.Lemmas.C09Optimal
+import QEProofs.Lemmas.C09Unique
 namespace QE.C09
+set_option linter.unusedSectionVars false
+
+section bellman
+variable {K : Type} [Zero K] [Add K] [Mul K] [LinearOrder K]
+
+/-! ## Bellman operator and greedy policy -/
+
+/-- **Bellman operator, SA-pair form.** Let state `i` own the non-empty block
+    `[a_indptr[i], a_indptr[i+1])` of the pair arrays (which lies inside them). Then
+    `bellman v` reports for state `i` the value `R[m] + β·Q[m]·v` of a pair `m` of that block
+    and the action `a_indices[m]` of that same pair, such that no pair of the block has a
+    larger value (so `Tv[i]` is the maximum over the feasible actions of `i`, attained by
+    `σ[i]`), and every *earlier* pair of the block has a strictly smaller value (first
+    maximum: with the pairs of a state in increasing action order, `σ[i]` is the smallest
+    maximising action). -/
+theorem bellman_spec_sa (d : SaDDP K) (v : List K) (i : Nat) (hi : i < d.n)
+    (hne : d.aIndptr.getD i 0 < d.aIndptr.getD (i + 1) 0)
+    (hhi : d.aIndptr.getD (i + 1) 0 ≤ d.R.length)
+    (hQ : d.Q.length = d.R.length) (hA : d.aInd.length = d.R.length) :
+    ∃ m act, d.aIndptr.getD i 0 ≤ m ∧ m < d.aIndptr.getD (i + 1) 0 ∧
+      d.aInd[m]? = some act ∧
+      (d.bellman v).1[i]? = some (d.pairVal v m) ∧
+      (d.bellman v).2[i]? = some act ∧
+      (∀ j, d.aIndptr.getD i 0 ≤ j → j < d.aIndptr.getD (i + 1) 0 →
+        ¬ d.pairVal v m < d.pairVal v j) ∧
+      (∀ j, d.aIndptr.getD i 0 ≤ j → j < m → d.pairVal v j < d.pairVal v m) :=
+  sa_bellman_spec d v i hi hne hhi hQ hA
+
+/-- the value of a pair is `r + β Σ q v` for a finite reward and `-inf` for a `-inf` reward -/
+theorem pairVal_def (d : SaDDP K) (v : List K) (j : Nat) :
+    d.pairVal v j = match d.R.getD j .ninf with
+      | .ninf => .ninf
+      | .fin r => .fin (r + d.beta * dot (d.Q.getD j []) v) := by
+  unfold SaDDP.pairVal qval
+  cases d.R.getD j .ninf <;> rfl
+
+/-- **Bellman operator, product form** (`m ≥ 1` actions; infeasible actions carry `-inf`).
+    `bellman v` reports for state `i` an action `a < m` and its value
+    `R[i,a] + β·Q[i,a]·v`; no action has a larger value and every smaller action has a
+    strictly smaller value (NumPy's first `argmax`). -/
+theorem bellman_spec_prod (d : ProdDDP K) (v : List K) (i : Nat) (hi : i < d.R.length)
+    (hQl : d.Q.length = d.R.length) (m : Nat) (hm : 0 < m)
+    (hRi : (d.R.getD i []).length = m) (hQi : (d.Q.getD i []).length = m) :
+    ∃ a, a < m ∧ (d.bellman v).1[i]? = some (d.actVal v i a) ∧ (d.bellman v).2[i]? = some a ∧
+      (∀ b, b < m → ¬ d.actVal v i a < d.actVal v i b) ∧
+      (∀ b, b < a → d.actVal v i b < d.actVal v i a) :=
+  prod_bellman_spec d v i hi hQl m hm hRi hQi
+
+/-- in product form the greedy action is feasible as soon as the state has a feasible action -/
+theorem greedy_feasible_prod (d : ProdDDP K) (v : List K) (i : Nat) (hi : i < d.R.length)
+    (hQl : d.Q.length = d.R.length) (m : Nat) (hm : 0 < m)
+    (hRi : (d.R.getD i []).length = m) (hQi : (d.Q.getD i []).length = m)
+    (hfeas : ∃ b, b < m ∧ (d.R.getD i []).getD b .ninf ≠ .ninf) :
+    ∃ a, a < m ∧ (d.bellman v).2[i]? = some a ∧ (d.R.getD i []).getD a .ninf ≠ .ninf := by
+  obtain ⟨a, ha, _, h2, h3, _⟩ := prod_bellman_spec d v i hi hQl m hm hRi hQi
+  refine ⟨a, ha, h2, ?_⟩
+  obtain ⟨b, hb, hfb⟩ := hfeas
+  intro hninf
+  have := h3 b hb
+  apply this
+  unfold ProdDDP.actVal qval
+  rw [hninf]
+  cases hrb : (d.R.getD i []).getD b .ninf with
+  | ninf => exact absurd hrb hfb
+  | fin r => exact trivial
+
+end bellman
+
+/-! non-vacuity: a 2-state SA instance over `ℤ` (pairs (0,0),(0,1),(1,0); tie in state 0 is
+    resolved to the first pair) and a product instance with an infeasible action -/
+def exSa : SaDDP Int :=
+  { n := 2, beta := 1, R := [.fin 1, .fin 1, .fin 0], Q := [[1, 0], [1, 0], [0, 1]],
+    sInd := [0, 0, 1], aInd := [0, 1, 0], aIndptr := [0, 2, 3] }
+example : exSa.bellman [5, 7] = ([.fin 6, .fin 7], [0, 0]) := by decide
+example : exSa.aIndptr.getD 0 0 < exSa.aIndptr.getD 1 0 ∧ exSa.aIndptr.getD 1 0 ≤ exSa.R.length ∧
+    exSa.Q.length = exSa.R.length ∧ exSa.aInd.length = exSa.R.length := by decide
+def exProd : ProdDDP Int :=
+  { n := 2, m := 2, beta := 2, R := [[.ninf, .fin 1], [.fin 0, .fin 3]],
+    Q := [[[1, 0], [0, 1]], [[1, 0], [0, 1]]] }
+example : exProd.bellman [1, 2] = ([.fin 5, .fin 7], [1, 1]) := by decide
+
+
+/-! ## policies: RQ_sigma, controlled_mc, T_sigma, evaluate_policy -/
+
+section policy
+variable {K : Type}
+
+/-- **RQ_sigma / controlled_mc select exactly the chosen rows (SA-pair form).** Whenever the
+    model returns rows at all, row `i` of `R_σ` / `Q_σ` (`Q_σ` is what `controlled_mc` wraps)
+    is the reward / transition row of a pair `j` in the block of state `i` with
+    `a_indices[j] = σ[i]`. -/
+theorem rqSigma_rows_sa (d : SaDDP K) (sigma : List Nat) (hs : sigma.length = d.n)
+    (R' : List (Ext K)) (Q' : List (List K)) (h : d.rqSigma sigma = some (R', Q')) :
+    R'.length = d.n ∧ Q'.length = d.n ∧
+    ∀ i, i < d.n → ∃ j, d.aIndptr.getD i 0 ≤ j ∧ j < d.aIndptr.getD (i + 1) 0 ∧
+      d.aInd[j]? = some (sigma.getD i 0) ∧
+      R'[i]? = some (d.R.getD j .ninf) ∧ Q'[i]? = some (d.Q.getD j []) :=
+  sa_rqSigma_rows d sigma hs R' Q' h
+
+/-- … and the model does return rows for every policy that picks an available action in
+    every state (for other policies the code indexes with uninitialised memory; the model
+    says `none`). -/
+theorem rqSigma_defined_sa (d : SaDDP K) (sigma : List Nat) (hs : sigma.length = d.n)
+    (hfeas : ∀ i, i < d.n → ∃ j, d.aIndptr.getD i 0 ≤ j ∧ j < d.aIndptr.getD (i + 1) 0 ∧
+      d.aInd[j]? = some (sigma.getD i 0)) :
+    (d.rqSigma sigma).isSome = true :=
+  sa_rqSigma_isSome d sigma hs hfeas
+
+/-- **RQ_sigma / controlled_mc, product form**: row `i` is `R[i, σ[i]]` / `Q[i, σ[i], :]`. -/
+theorem rqSigma_rows_prod (d : ProdDDP K) (sigma : List Nat)
+    (R' : List (Ext K)) (Q' : List (List K)) (h : d.rqSigma sigma = some (R', Q')) :
+    sigma.length = d.n ∧ (∀ a ∈ sigma, a < d.m) ∧ R'.length = d.n ∧ Q'.length = d.n ∧
+    ∀ i, i < d.n →
+      R'[i]? = some ((d.R.getD i []).getD (sigma.getD i 0) .ninf) ∧
+      Q'[i]? = some ((d.Q.getD i []).getD (sigma.getD i 0) []) :=
+  prod_rqSigma_rows d sigma R' Q' h
+
+example : exSa.rqSigma [1, 0] = some ([.fin 1, .fin 0], [[1, 0], [0, 1]]) := by decide
+example : exSa.rqSigma [0, 1] = none := by decide   -- action 1 is not available in state 1
+example : exProd.rqSigma [0, 1] = some ([.ninf, .fin 3], [[1, 0], [0, 1]]) := by decide
+
+section
+variable [Zero K] [Add K] [Mul K]
+
+/-- **T_sigma is the affine map `v ↦ R_σ + β Q_σ v`**: entry `i` is
+    `R_σ[i] + β·Q_σ[i]·v` (`-inf` if `R_σ[i] = -inf`), for all three forms
+    (`DDP.tSigma` is `tSigmaOf` applied to `rqSigma`). -/
+theorem tSigma_entry (beta : K) (R' : List (Ext K)) (Q' : List (List K)) (v : List K) (i : Nat)
+    (h1 : i < R'.length) (h2 : i < Q'.length) :
+    (tSigmaOf beta (R', Q') v)[i]? = some (qval beta (R'.getD i .ninf) (Q'.getD i []) v) :=
+  tSigmaOf_getElem? beta R' Q' v i h1 h2
+
+theorem tSigma_def (d : DDP K) (sigma : List Nat) (v : List K) :
+    d.tSigma sigma v = (d.rqSigma sigma).map fun rq => tSigmaOf d.beta rq v := rfl
+
+/-- with finite rewards `b` the result is the vector `b + β Q_σ v` -/
+theorem tSigma_affine (beta : K) (b : List K) (Q' : List (List K)) (v : List K) :
+    tSigmaOf beta (b.map Ext.fin, Q') v
+      = (List.zipWith (fun r q => r + beta * dot q v) b Q').map Ext.fin :=
+  tSigmaOf_fin beta b Q' v
+
+end
+
+/-- `dot` is linear in its second argument, so the map above is affine in `v` -/
+theorem dot_linear {K : Type} [CommRing K] (q v w : List K) (c : K) (h : v.length = w.length) :
+    dot q (List.zipWith (· + ·) v w) = dot q v + dot q w ∧ dot q (v.map (c * ·)) = c * dot q v :=
+  ⟨dot_add_right q v w h, dot_smul_right c q v⟩
+
+/-- `dot q v` is the sum `Σ_{s'} q(s') v(s')` of the property statement -/
+theorem dot_is_sum {K : Type} [CommRing K] (q v : List K) :
+    dot q v = ∑ i ∈ Finset.range (min q.length v.length), q.getD i 0 * v.getD i 0 :=
+  dot_eq_sum q v
+
+end policy
+
+section evalpol
+variable {K : Type} [Field K] [DecidableEq K]
+
+/-- **evaluate_policy returns the fixed point of `T_σ`.** With the driver's checked solver:
+    whenever `evalPolicyOf` answers `x`, then `β ≠ 1`, the policy's rows exist, all its rewards
+    are finite, and — `Q_σ` being square of the size of `x` — `T_σ x = x`. (`β = 1` gives
+    `NotImplementedError`, see `evalPolicy_beta_one`.) -/
+theorem evalPolicy_fixed_point (beta : K) (rq : Option (List (Ext K) × List (List K))) (x : List K)
+    (h : evalPolicyOf solveChecked beta rq = .ok x) :
+    beta ≠ 1 ∧ ∃ (R' : List (Ext K)) (Q' : List (List K)) (b : List K), rq = some (R', Q') ∧ R' = b.map Ext.fin ∧ x.length = Q'.length ∧
+      ((∀ row ∈ Q', row.length = Q'.length) → tSigmaOf beta (R', Q') x = x.map Ext.fin) := by
+  unfold evalPolicyOf at h
+  by_cases hb : (beta == 1) = true
+  · rw [if_pos hb] at h; cases h
+  rw [if_neg hb] at h
+  refine ⟨fun e => hb (by simp [e]), ?_⟩
+  cases rq with
+  | none => cases h
+  | some p =>
+    obtain ⟨R', Q'⟩ := p
+    simp only at h
+    cases hm : R'.mapM Ext.toOption with
+    | none => simp [hm] at h
+    | some b =>
+      simp only [hm] at h
+      cases hsol : solveChecked (policyMatrix beta Q') b with
+      | none => simp [hsol] at h
+      | some y =>
+        simp only [hsol] at h
+        cases h
+        have hR := mapM_toOption_eq_some _ _ hm
+        obtain ⟨hl, hmv⟩ := solveChecked_sound _ _ _ hsol
+        have hl' : x.length = Q'.length := by simpa [policyMatrix] using hl
+        refine ⟨R', Q', b, rfl, hR, hl', ?_⟩
+        intro hsq
+        rw [hR, tSigmaOf_fin, fixed_point_of_solve beta Q' b x hl' hsq hmv]
+
+theorem evalPolicy_beta_one (solve : List (List K) → List K → Option (List K))
+    (rq : Option (List (Ext K) × List (List K))) :
+    evalPolicyOf solve (1 : K) rq = .error "NotImplementedError" := by
+  simp [evalPolicyOf]
+
+end evalpol
+
+
+section evalunique
+variable {K : Type} [Field K] [LinearOrder K] [IsStrictOrderedRing K]
+
+/-- **the fixed point of `T_σ` is unique for `0 ≤ β < 1`** (contraction in the max norm; rows of
+    `Q_σ` non-negative with sum `≤ 1`) -/
+theorem tSigma_fixed_point_unique' (beta : K) (hb0 : 0 ≤ beta) (hb1 : beta < 1)
+    (b : List K) (Q' : List (List K)) (hQn : ∀ row ∈ Q', ∀ a ∈ row, 0 ≤ a)
+    (hQs : ∀ row ∈ Q', row.sum ≤ 1) (x y : List K) (hxy : x.length = y.length)
+    (hx : tSigmaOf beta (b.map Ext.fin, Q') x = x.map Ext.fin)
+    (hy : tSigmaOf beta (b.map Ext.fin, Q') y = y.map Ext.fin) : x = y := by
+  have hinj : Function.Injective (Ext.fin : K → Ext K) := fun a c h => by injection h
+  rw [tSigmaOf_fin] at hx hy
+  exact tSigma_fixed_point_unique beta hb0 hb1 b Q' hQn hQs x y hxy
+    (List.map_injective_iff.mpr hinj hx) (List.map_injective_iff.mpr hinj hy)
+
+/-- **evaluate_policy returns *the* value of the policy**: for `0 ≤ β < 1` and a square
+    sub-stochastic `Q_σ`, whatever `evalPolicyOf` answers equals every fixed point of `T_σ` of the
+    same length. -/
+theorem evalPolicy_unique (beta : K) (hb0 : 0 ≤ beta) (hb1 : beta < 1)
+    (b : List K) (Q' : List (List K)) (hsq : ∀ row ∈ Q', row.length = Q'.length)
+    (hQn : ∀ row ∈ Q', ∀ a ∈ row, 0 ≤ a) (hQs : ∀ row ∈ Q', row.sum ≤ 1)
+    (x y : List K) (hx : evalPolicyOf solveChecked beta (some (b.map Ext.fin, Q')) = .ok x)
+    (hyl : y.length = Q'.length) (hy : tSigmaOf beta (b.map Ext.fin, Q') y = y.map Ext.fin) :
+    y = x := by
+  obtain ⟨_, R'', Q'', b'', hrq, hR, hl, hfix⟩ := evalPolicy_fixed_point beta _ x hx
+  simp only [Option.some.injEq, Prod.mk.injEq] at hrq
+  obtain ⟨rfl, rfl⟩ := hrq
+  have hxfix := hfix hsq
+  exact (tSigma_fixed_point_unique' beta hb0 hb1 b Q' hQn hQs x y (by omega) hxfix hy).symm
+
+end evalunique
+
+example : evalPolicyOf solveChecked (1/2 : Rat) (some ([.fin 1, .fin 0], [[1, 0], [0, 1]]))
+    = .ok [2, 0] := by decide +kernel
+
+
+/-! ## `_generate_a_indptr` (as repaired: bounded scan) -/
+
+/-- **The scan never leaves the array, for all inputs** (any `s`, any remaining array, sorted
+    or not): it advances by some `k ≤ len(rest)` elements, all equal to `s`, and stops either at
+    the end of the array or in front of an element `≠ s` — every element it inspects is an
+    element of the array. -/
+theorem scan_in_bounds (s : Nat) (rest : List Nat) (idx : Nat) :
+    ∃ k, k ≤ rest.length ∧ scanState s rest idx = (idx + k, rest.drop k) ∧
+      (∀ x ∈ rest.take k, x = s) ∧ (∀ x, (rest.drop k).head? = some x → x ≠ s) :=
+  scanState_drop s rest idx
+
+/-- **`a_indptr` is well formed for all inputs** (`n` arbitrary, `s_indices` arbitrary — empty
+    trailing, middle or leading states, unsorted, values `≥ n`): it has `n+1` entries, every
+    entry is a position `≤ len(s_indices)`, entries are non-decreasing, the last one is
+    `len(s_indices)` and (for `n > 0`) the first is `0`. -/
+theorem aindptr_in_bounds (n : Nat) (S : List Nat) :
+    (generateAIndptr n S).length = n + 1 ∧
+    (∀ y ∈ generateAIndptr n S, y ≤ S.length) ∧
+    List.Pairwise (· ≤ ·) (generateAIndptr n S) ∧
+    (generateAIndptr n S)[n]? = some S.length ∧
+    (0 < n → (generateAIndptr n S)[0]? = some 0) := by
+  unfold generateAIndptr
+  by_cases hn : n = 0
+  · subst hn; simp
+  rw [if_neg hn]
+  obtain ⟨h1, h2, h3⟩ := genLoop_inv S (List.range (n - 1)) S 0 (by simp) (Nat.zero_le _)
+  rw [List.length_range] at h1
+  refine ⟨by simp [h1]; omega, ?_, ?_, ?_, fun _ => by simp⟩
+  · intro y hy
+    simp only [List.mem_append, List.mem_cons] at hy
+    rcases hy with (rfl | hy) | hy
+    · exact Nat.zero_le _
+    · exact (h2 y hy).2
+    · simp at hy; omega
+  · rw [List.pairwise_append]
+    refine ⟨?_, by simp, ?_⟩
+    · rw [List.pairwise_cons]
+      exact ⟨fun y _ => Nat.zero_le _, h3⟩
+    · intro a ha b hb
+      simp only [List.mem_singleton] at hb
+      subst hb
+      rcases List.mem_cons.mp ha with rfl | ha
+      · exact Nat.zero_le _
+      · exact (h2 a ha).2
+  · have hl : (0 :: genLoop S 0 (List.range (n - 1))).length = n := by
+      rw [List.length_cons, h1]; omega
+    rw [List.getElem?_append_right (by omega), hl]
+    simp
+
+/-- **On sorted input `a_indptr[k]` is the number of pairs with state `< k`** (`k < n`), and
+    `a_indptr[n] = L`; hence state `i` owns exactly `count(i)` positions. -/
+theorem aindptr_sorted (n : Nat) (S : List Nat) (hp : List.Pairwise (· ≤ ·) S) (k : Nat) :
+    (k < n → (generateAIndptr n S)[k]? = some (S.countP (· < k))) ∧
+    (k = n → (generateAIndptr n S)[k]? = some S.length) :=
+  generateAIndptr_sorted n S hp k
+
+/-- whenever the scan **without** the guard `idx < L` (the code before the repair) stays
+    inside the array, it computes the same pointer array … -/
+theorem aindptrU_agrees (n : Nat) (S l : List Nat) (h : generateAIndptrUnbounded n S = some l) :
+    l = generateAIndptr n S := by
+  unfold generateAIndptrUnbounded at h
+  unfold generateAIndptr
+  by_cases hn : n = 0
+  · simp [hn] at h ⊢; exact h.symm
+  · rw [if_neg hn] at h ⊢
+    cases hg : genLoopU S 0 (List.range (n - 1)) with
+    | none => simp [hg] at h
+    | some mid =>
+      simp only [hg, Option.map_some, Option.some.injEq] at h
+      rw [genLoopU_some _ _ _ _ hg]
+      exact h.symm
+
+/-- … and it runs off the array exactly when everything left equals the state scanned for -/
+theorem scanU_out_of_bounds_iff (s : Nat) (rest : List Nat) (idx : Nat) :
+    scanStateU s rest idx = none ↔ ∀ x ∈ rest, x = s :=
+  scanStateU_none_iff s rest idx
+
+/-- **aindptr_total_iff (the pre-repair scan, F4).** On sorted input the scan *without* the
+    guard `idx < L` reads past the end of `s_indices` **iff** `n ≥ 2` and no pair belongs to a
+    state `≥ n-1` — with states `< n`: iff the last state has no pair. The repaired scan needs
+    no such hypothesis (`aindptr_in_bounds`). -/
+theorem aindptr_total_iff (n : Nat) (S : List Nat) (hp : List.Pairwise (· ≤ ·) S) :
+    generateAIndptrUnbounded n S = none ↔ 2 ≤ n ∧ ∀ x ∈ S, x < n - 1 :=
+  generateAIndptrUnbounded_none_iff n S hp
+
+-- the input of finding F4: last state empty. Unguarded: read past the end; guarded: fine
+example : generateAIndptrUnbounded 3 [0, 0] = none := by decide
+example : generateAIndptr 3 [0, 0] = [0, 2, 2, 2] := by decide
+example : generateAIndptr 4 [1, 1, 3] = [0, 0, 2, 2, 3] := by decide
+example : generateAIndptrUnbounded 4 [1, 1, 3] = some [0, 0, 2, 2, 3] := by decide
+
+/-! ## the constructor's feasibility check -/
+
+/-- the error of a constructor call, if any -/
+def errOf {β : Type} : Except CtorErr β → Option CtorErr
+  | .error e => some e
+  | .ok _ => none
+
+
+section ctor
+variable {K : Type} [LinearOrder K]
+
+/-- **`_check_action_feasibility`, SA-pair form**, on any pointer array that is non-decreasing
+    on `0..n`: it accepts iff every state owns a non-empty block containing a finite reward;
+    otherwise the error is `reward s` (a state whose block is non-empty and all `-inf`) or
+    `action s` (a state with an empty block) — both `ValueError`s. -/
+theorem check_feasible_sa (n : Nat) (R : List (Ext K)) (aInd aIndptr : List Nat)
+    (hmono : ∀ i, i < n → aIndptr.getD i 0 ≤ aIndptr.getD (i + 1) 0) :
+    (checkFeasibleSa n R aInd aIndptr = .ok () ↔
+      ∀ i, i < n → aIndptr.getD i 0 < aIndptr.getD (i + 1) 0 ∧
+        ∃ j, aIndptr.getD i 0 ≤ j ∧ j < aIndptr.getD (i + 1) 0 ∧ R.getD j .ninf ≠ .ninf) ∧
+    (∀ e, checkFeasibleSa n R aInd aIndptr = .error e →
+      (∃ s, s < n ∧ e = .reward s ∧ aIndptr.getD s 0 < aIndptr.getD (s + 1) 0 ∧
+        ∀ j, aIndptr.getD s 0 ≤ j → j < aIndptr.getD (s + 1) 0 → R.getD j .ninf = .ninf) ∨
+      (∃ s, s < n ∧ e = .action s ∧ aIndptr.getD s 0 = aIndptr.getD (s + 1) 0)) :=
+  checkFeasibleSa_spec n R aInd aIndptr hmono
+
+/-- **The constructor rejects with `ValueError` every problem in which some state has no
+    state-action pair** — the first, a middle or the last state, pairs sorted or in any order
+    (arrays of consistent lengths, states `< n`). No hypothesis about *which* state is empty is
+    needed any more: before the repairs the sorted path read past `s_indices` when the last
+    states were empty (F4) and the unsorted path raised `IndexError` (F5). -/
+theorem constructor_rejects_missing_state (n : Nat) (beta : K) [Zero K] [One K]
+    (R : List (Ext K)) (Q : List (List K)) (S A : List Nat)
+    (hR : R.length = Q.length) (hSl : S.length = Q.length) (hAl : A.length = Q.length)
+    (hS : ∀ s ∈ S, s < n) (i : Nat) (hi : i < n) (hmiss : i ∉ S) :
+    ∃ s, s < n ∧ (mkSa n beta R Q S A = .error (.reward s) ∨ mkSa n beta R Q S A = .error (.action s)) :=
+  mkSa_rejects_missing_state n beta R Q S A hR hSl hAl hS i hi hmiss
+
+end ctor
+
+
+section ctor_iff
+variable {K : Type} [LinearOrder K] [Zero K] [One K]
+
+/-- **The constructor accepts exactly the admissible problems** (SA-pair form; arrays of
+    consistent lengths, states `< n`, pairs **in any order**): it returns the arranged instance
+    iff every state `i < n` has a pair `k` (`s_indices[k] = i`) with a finite reward, and
+    `0 ≤ β ≤ 1`. -/
+theorem constructor_accepts_iff (n : Nat) (beta : K) (R : List (Ext K)) (Q : List (List K)) (S A : List Nat)
+    (hR : R.length = Q.length) (hSl : S.length = Q.length) (hAl : A.length = Q.length)
+    (hS : ∀ s ∈ S, s < n) :
+    mkSa n beta R Q S A = .ok (arrangeSa n beta R Q S A) ↔
+      ((∀ i, i < n → ∃ k, k < S.length ∧ S[k]? = some i ∧ R.getD k .ninf ≠ .ninf) ∧
+        0 ≤ beta ∧ beta ≤ 1) :=
+  mkSa_ok_iff n beta R Q S A hR hSl hAl hS
+
+/-- **constructor_rejects_iff.** Under the same hypotheses the constructor answers with the
+    `ValueError` `reward s` or `action s` **iff** some state `i < n` has no available action or
+    only `-inf` rewards (every pair `k` with `s_indices[k] = i` — possibly none — has reward
+    `-inf`; the reads `R[k]` are guarded by `k < L`). On the code before the repairs this was
+    false for an empty *trailing* state (out-of-bounds scan / `IndexError`). -/
+theorem constructor_rejects_iff (n : Nat) (beta : K) (R : List (Ext K)) (Q : List (List K)) (S A : List Nat)
+    (hR : R.length = Q.length) (hSl : S.length = Q.length) (hAl : A.length = Q.length)
+    (hS : ∀ s ∈ S, s < n) :
+    (∃ s, s < n ∧ (mkSa n beta R Q S A = .error (.reward s) ∨ mkSa n beta R Q S A = .error (.action s))) ↔
+      ∃ i, i < n ∧ ∀ k, k < S.length → S[k]? = some i → R.getD k .ninf = .ninf :=
+  mkSa_rejects_iff n beta R Q S A hR hSl hAl hS
+
+/-- the pairs of state `i` sit, in both branches (kept / re-sorted), in the block
+    `[#{s<i}, #{s<i+1})` of the stored arrays, with their own rewards -/
+theorem arranged_block (n : Nat) (beta : K) (R : List (Ext K)) (Q : List (List K)) (S A : List Nat)
+    (hA : A.length = S.length) (i : Nat) :
+    (∃ j, S.countP (· < i) ≤ j ∧ j < S.countP (· < i + 1) ∧
+        (arrangeSa n beta R Q S A).R.getD j .ninf ≠ .ninf) ↔
+    (∃ k, k < S.length ∧ S[k]? = some i ∧ R.getD k .ninf ≠ .ninf) :=
+  arrangeSa_block n beta R Q S A hA i
+
+end ctor_iff
+
+/-- **Product form**: the check accepts iff every row of `R` has an entry `> -inf`; otherwise
+    it reports (`ValueError`) the first row that is entirely `-inf`. -/
+theorem check_feasible_prod {K : Type} (R : List (List (Ext K))) :
+    (checkFeasibleProd R = .ok () ↔ ∀ i, i < R.length → ∃ r ∈ R.getD i [], r ≠ .ninf) ∧
+    (∀ e, checkFeasibleProd R = .error e →
+      ∃ s, s < R.length ∧ e = .reward s ∧ (∀ r ∈ R.getD s [], r = .ninf) ∧
+        ∀ i, i < s → ∃ r ∈ R.getD i [], r ≠ .ninf) :=
+  checkFeasibleProd_spec R
+
+example : errOf (mkProd (1/2 : Rat) [[.fin 1, .ninf], [.ninf, .ninf]] [[[1, 0], [1, 0]], [[1, 0], [1, 0]]])
+    = some (.reward 1) := by decide +kernel
+
+
+-- F4's and F5's inputs (hypotheses of the theorem hold: state 2 / state 2 has no pair), and an
+-- instance with an only-`-inf` state
+example : errOf (mkSa 3 (1/2 : Rat) [.fin 1, .fin 2] [[1, 0, 0], [0, 1, 0]] [0, 0] [0, 1])
+    = some (.action 1) := by decide +kernel
+example : errOf (mkSa 2 (1/2 : Rat) [.fin 1, .ninf, .ninf] [[1, 0], [0, 1], [0, 1]] [0, 1, 1] [0, 0, 1])
+    = some (.reward 1) := by decide +kernel
+example : errOf (mkSa 2 (1/2 : Rat) [.fin 1, .ninf, .fin 0] [[1, 0], [0, 1], [0, 1]] [0, 1, 1] [0, 0, 1])
+    = none := by decide +kernel
+
+
+
+/-! ## the re-sort of pairs given in arbitrary order -/
+
+/-- **`resortPairs` is a permutation of the pair indices that lists the pairs in
+    lexicographic `(s, a)` order** (the `sa_ptrs.data` of the COO → CSR conversion) -/
+theorem resort_permutation (S A : List Nat) (h : A.length = S.length) :
+    (resortPairs S A).Perm (List.range S.length) ∧
+    List.Pairwise (fun k k' => S.getD k 0 < S.getD k' 0 ∨ (S.getD k 0 = S.getD k' 0 ∧ A.getD k 0 ≤ A.getD k' 0))
+      (resortPairs S A) :=
+  ⟨resortPairs_perm S A h, resortPairs_sorted S A h⟩
+
+/-- **… and the constructor moves every pair together with its own state, action, reward and
+    transition row** (no row mix-up): in the unsorted branch, position `j` of the stored arrays
+    holds the data of the given pair `k = perm[j]` (`k < L`, so all reads are inside the arrays). -/
+theorem resort_preserves {K : Type} (n : Nat) (beta : K) (R : List (Ext K)) (Q : List (List K)) (S A : List Nat)
+    (hR : R.length = S.length) (hQ : Q.length = S.length) (hA : A.length = S.length)
+    (hS : ∀ s ∈ S, s < n) (hs : ¬ hasSortedSa S A = true) (j : Nat) (hj : j < S.length) :
+    ∃ k, (resortPairs S A)[j]? = some k ∧ k < S.length ∧
+      (arrangeSa n beta R Q S A).sInd[j]? = S[k]? ∧
+      (arrangeSa n beta R Q S A).aInd[j]? = A[k]? ∧
+      (arrangeSa n beta R Q S A).R[j]? = R[k]? ∧
+      (arrangeSa n beta R Q S A).Q[j]? = Q[k]? := by
+  obtain ⟨k, hk, hkl, h1, h2, h3⟩ := arrangeSa_unsorted n beta R Q S A hR hQ hA hs j hj
+  obtain ⟨k', hk', _, h4⟩ := arrangeSa_unsorted_sInd n beta R Q S A hA hS hs j hj
+  rw [hk] at hk'
+  cases hk'
+  exact ⟨k, hk, hkl, h4, h3, h1, h2⟩
+
+/-- in the sorted branch nothing moves -/
+theorem sorted_keeps {K : Type} (n : Nat) (beta : K) (R : List (Ext K)) (Q : List (List K)) (S A : List Nat)
+    (hs : hasSortedSa S A = true) :
+    (arrangeSa n beta R Q S A).sInd = S ∧ (arrangeSa n beta R Q S A).aInd = A ∧
+    (arrangeSa n beta R Q S A).R = R ∧ (arrangeSa n beta R Q S A).Q = Q ∧
+    (arrangeSa n beta R Q S A).aIndptr = generateAIndptr n S := by
+  unfold arrangeSa
+  rw [if_pos hs]
+  exact ⟨rfl, rfl, rfl, rfl, rfl⟩
+
+/-! ## form conversion -/
+
+section forms
+variable {K : Type} [LinearOrder K] [Zero K] [One K]
+
+/-- `np.where(R > -inf)`: the records `(s, a, r, q)` of `feasiblePairs` are exactly the entries
+    of the product form with a finite reward, with their own reward and transition row … -/
+theorem feasible_pairs_mem (R : List (List (Ext K))) (Q : List (List (List K))) (s a : Nat) (r : K) (q : List K) :
+    (s, a, r, q) ∈ feasiblePairs R Q ↔
+      s < R.length ∧ a < (R.getD s []).length ∧ (R.getD s []).getD a .ninf = .fin r ∧
+        q = (Q.getD s []).getD a [] :=
+  mem_feasiblePairs R Q s a r q
+
+/-- … listed in strictly increasing lexicographic `(s, a)` order (so there are no duplicates
+    and the SA constructor takes the "already sorted" path) -/
+theorem feasible_pairs_sorted (R : List (List (Ext K))) (Q : List (List (List K))) :
+    List.Pairwise lexLt4 (feasiblePairs R Q) :=
+  feasiblePairs_pairwise R Q
+
+/-- **to_sa_pair_form preserves rewards, transitions and feasibility**: the SA instance stores
+    exactly the feasible pairs, in that order, with their rewards and rows; `n`, `β` unchanged. -/
+theorem to_sa_pair_form_spec (d : ProdDDP K) (e : SaDDP K) (h : toSaPair d = .ok e) :
+    e.n = d.n ∧ e.beta = d.beta ∧
+    e.R = (feasiblePairs d.R d.Q).map (fun p => Ext.fin p.2.2.1) ∧
+    e.Q = (feasiblePairs d.R d.Q).map (fun p => p.2.2.2) ∧
+    e.sInd = (feasiblePairs d.R d.Q).map (fun p => p.1) ∧
+    e.aInd = (feasiblePairs d.R d.Q).map (fun p => p.2.1) :=
+  toSaPair_ok d e h
+
+/-- **to_product_form**: `n`, `β` unchanged, `m = max a + 1`, and entry `(s, a)` holds the reward
+    / row of a stored pair `(s, a)` if there is one, else `-inf` / a zero row. -/
+theorem to_product_form_spec (e : SaDDP K) (d' : ProdDDP K) (h : toProduct e = .ok d') :
+    d'.n = e.n ∧ d'.beta = e.beta ∧ (0 < e.n → d'.m = e.aInd.foldl max 0 + 1) ∧
+    ∀ s a, s < e.n → a < e.aInd.foldl max 0 + 1 →
+      (d'.R.getD s [])[a]? = some (match lookupPair e.sInd e.aInd s a with
+        | some i => e.R.getD i Ext.ninf
+        | none => Ext.ninf) ∧
+      (d'.Q.getD s [])[a]? = some (match lookupPair e.sInd e.aInd s a with
+        | some i => e.Q.getD i []
+        | none => List.replicate e.n 0) :=
+  toProduct_ok e d' h
+
+/-- a successful lookup designates a stored pair `(s, a)`; a failed one means there is none -/
+theorem lookupPair_spec (S A : List Nat) (s a : Nat) :
+    (∀ i, lookupPair S A s a = some i → i < S.length ∧ S[i]? = some s ∧ A[i]? = some a) ∧
+    (lookupPair S A s a = none → ∀ i, i < S.length → ¬ (S[i]? = some s ∧ A[i]? = some a)) := by
+  refine ⟨fun i h => lookupPair_some S A s a i h, ?_⟩
+  intro hnone i hi hp
+  have := lookupPair_isSome S A s a i hi hp.1 hp.2
+  rw [hnone] at this; cases this
+
+/-- **form_roundtrip: product → SA-pair → product is the identity on feasible pairs.**
+    For every state `s` and action `a`: if `(s, a)` is feasible in `d` with reward `r`, then `a`
+    is still an action of the result and the result holds the same reward and the same
+    transition row there; if `(s, a)` is not feasible in `d` (reward `-inf`, or `a` beyond the
+    row) and `a` is an action of the result, the result holds `-inf` there. (The number of
+    actions may shrink to `1 + ` the largest feasible action.) -/
+theorem form_roundtrip (d : ProdDDP K) (e : SaDDP K) (d' : ProdDDP K)
+    (h1 : toSaPair d = .ok e) (h2 : toProduct e = .ok d') (hn : d.n = d.R.length) :
+    d'.n = d.n ∧ d'.beta = d.beta ∧
+    ∀ s a, s < d.n →
+      (∀ r, a < (d.R.getD s []).length → (d.R.getD s []).getD a .ninf = .fin r →
+        a < d'.m ∧ (d'.R.getD s [])[a]? = some (.fin r) ∧
+        (d'.Q.getD s [])[a]? = some ((d.Q.getD s []).getD a [])) ∧
+      ((¬ ∃ r, a < (d.R.getD s []).length ∧ (d.R.getD s []).getD a .ninf = .fin r) → a < d'.m →
+        (d'.R.getD s [])[a]? = some .ninf) :=
+  roundtrip_prod d e d' h1 h2 hn
+
+/-- **form_roundtrip, other direction: SA-pair → product → SA-pair keeps exactly the pairs with
+    a finite reward, with their rewards and transition rows** (pairs of `e` pairwise distinct,
+    states `< n`): a record `(s, a, r, q)` is stored in the result iff `e` stores the pair
+    `(s, a)` with the finite reward `r` and the row `q` (reads guarded by `i < L`). -/
+theorem form_roundtrip_sa (e : SaDDP K) (d' : ProdDDP K) (e' : SaDDP K)
+    (h1 : toProduct e = .ok d') (h2 : toSaPair d' = .ok e')
+    (hsn : ∀ s ∈ e.sInd, s < e.n)
+    (hnodup : ∀ k k', k < e.sInd.length → k' < e.sInd.length → e.sInd[k]? = e.sInd[k']? →
+      e.aInd[k]? = e.aInd[k']? → k = k')
+    (s a : Nat) (r : K) (q : List K) :
+    (∃ j : Nat, e'.sInd[j]? = some s ∧ e'.aInd[j]? = some a ∧ e'.R[j]? = some (Ext.fin r) ∧
+      e'.Q[j]? = some q) ↔
+    (∃ i, i < e.sInd.length ∧ e.sInd[i]? = some s ∧ e.aInd[i]? = some a ∧
+      e.R.getD i .ninf = .fin r ∧ e.Q.getD i [] = q) :=
+  roundtrip_sa e d' e' h1 h2 hsn hnodup s a r q
+
+end forms
+
+/-- non-vacuity: a product instance over `ℤ` whose last action is infeasible everywhere (the
+    round trip drops that column) -/
+def exProd2 : ProdDDP Int :=
+  { n := 2, m := 3, beta := 1, R := [[.ninf, .fin 1, .ninf], [.fin 0, .fin 3, .ninf]],
+    Q := [[[1, 0], [0, 1], [1, 0]], [[1, 0], [0, 1], [0, 1]]] }
+example : (toSaPair exProd2).toOption.map (fun e => (e.sInd, e.aInd, e.aIndptr, e.R))
+    = some ([0, 1, 1], [1, 0, 1], [0, 1, 3], [.fin 1, .fin 0, .fin 3]) := by decide
+example : ((toSaPair exProd2).toOption.bind fun e => (toProduct e).toOption).map (fun d => (d.n, d.m, d.R))
+    = some (2, 2, [[.ninf, .fin 1], [.fin 0, .fin 3]]) := by decide
+
+/-! ## backward induction -/
+
+section backward
+variable {K : Type} [Zero K] [Add K] [Mul K] [LinearOrder K]
+
+/-- **Backward induction, every horizon `T` and terminal value (any `β`, `β = 1` included).**
+    Whenever `backwardInduction d T vTerm` returns `(vs, σs)`: `vs` has `T+1` rows, `σs` has
+    `T` rows, `vs[T]` is the terminal value (zeros if none was given), and for every
+    `t < T` the pair `(vs[t], σs[t])` is exactly the Bellman operator's output at `vs[t+1]`
+    — i.e. (with `bellman_spec_*`) `vs[t] = max_a r + β q·vs[t+1]` with `σs[t]` greedy. -/
+theorem backward_recursion (d : DDP K) (T : Nat) (vTerm : Option (List K))
+    (vs : List (List K)) (ss : List (List Nat))
+    (h : backwardInduction d T vTerm = some (vs, ss)) :
+    vs.length = T + 1 ∧ ss.length = T ∧
+    vs[T]? = some (vTerm.getD (List.replicate d.n 0)) ∧
+    ∀ t, t < T → ∃ w w' σ, vs[t + 1]? = some w ∧ vs[t]? = some w' ∧ ss[t]? = some σ ∧
+      d.bellman w = (w'.map Ext.fin, σ) := by
+  unfold backwardInduction at h
+  cases hb : backwardLoop d T (vTerm.getD (List.replicate d.n 0)) with
+  | none => simp [hb] at h
+  | some p =>
+    obtain ⟨vs', ss'⟩ := p
+    simp only [hb, Option.map_some, Option.some.injEq, Prod.mk.injEq] at h
+    obtain ⟨rfl, rfl⟩ := h
+    obtain ⟨h1, h2, h3⟩ := backwardLoop_spec d T _ vs' ss' hb
+    refine ⟨by simp [h1], h2, ?_, h3⟩
+    rw [List.getElem?_append_right (by omega)]; simp [h1]
+
+/-- the loop cannot fail as long as the Bellman operator only produces finite values -/
+theorem backward_total (d : DDP K) (hfin : ∀ v, ∃ tv : List K, (d.bellman v).1 = tv.map Ext.fin)
+    (T : Nat) (vTerm : Option (List K)) : (backwardInduction d T vTerm).isSome = true :=
+  backwardInduction_isSome d hfin T vTerm
+
+end backward
+
+
+/-! ## accepted instances: finite values, backward induction never fails -/
+
+
+/-- **one-step optimality in policy terms** (SA-pair form, feasible instance): for every policy
+    `σ` that picks available actions, `T_σ v ≤ T v` in every state — together with
+    `bellman_spec_sa` (the greedy action attains `T v`) this is `T v = max_σ T_σ v`. -/
+theorem bellman_dominates_policy {K : Type} [Zero K] [Add K] [Mul K] [LinearOrder K]
+    (d : SaDDP K) (hf : d.Feasible) (v : List K) (sigma : List Nat)
+    (hs : sigma.length = d.n) (R' : List (Ext K)) (Q' : List (List K))
+    (h : d.rqSigma sigma = some (R', Q')) (i : Nat) (hi : i < d.n) :
+    ∃ x y, (d.bellman v).1[i]? = some x ∧ (tSigmaOf d.beta (R', Q') v)[i]? = some y ∧ ¬ x < y :=
+  sa_bellman_dominates d hf v sigma hs R' Q' h i hi
+
+section accepted
+variable {K : Type} [LinearOrder K] [Zero K] [One K] [Add K] [Mul K]
+
+/-- on a feasible SA instance (`SaDDP.Feasible`: every state owns a non-empty block inside the
+    arrays containing a finite reward) the Bellman operator returns finite values only -/
+theorem bellman_finite_sa (d : SaDDP K) (hf : d.Feasible) (v : List K) :
+    ∃ tv : List K, (d.bellman v).1 = tv.map Ext.fin :=
+  sa_bellman_finite d hf v
+
+/-- **every SA instance the constructor accepts is feasible** (pairs in any order) … -/
+theorem accepted_feasible (n : Nat) (beta : K) (R : List (Ext K)) (Q : List (List K)) (S A : List Nat)
+    (hR : R.length = Q.length) (hSl : S.length = Q.length) (hAl : A.length = Q.length)
+    (hS : ∀ s ∈ S, s < n) (d : SaDDP K) (h : mkSa n beta R Q S A = .ok d) :
+    d.Feasible ∧ d.n = n :=
+  accepted_sa_feasible n beta R Q S A hR hSl hAl hS d h
+
+/-- … hence `backward_induction` on it returns values and policies for **every** horizon and
+    terminal value (so the hypothesis of `backward_recursion` is never vacuous there) -/
+theorem accepted_backward_total (n : Nat) (beta : K) (R : List (Ext K)) (Q : List (List K)) (S A : List Nat)
+    (hR : R.length = Q.length) (hSl : S.length = Q.length) (hAl : A.length = Q.length)
+    (hS : ∀ s ∈ S, s < n) (d : SaDDP K) (h : mkSa n beta R Q S A = .ok d)
+    (T : Nat) (vTerm : Option (List K)) :
+    (backwardInduction (DDP.sa d) T vTerm).isSome = true :=
+  accepted_sa_backward_total n beta R Q S A hR hSl hAl hS d h T vTerm
+
+end accepted
+
+
+
+/-! ## product form: constructor, finite values, backward induction never fails -/
+
+section accepted_prod
+variable {K : Type} [LinearOrder K] [Zero K] [One K]
+
+/-- **product-form constructor**: on arrays of consistent shape it accepts iff every row of `R`
+    has an entry `> -inf` and `0 ≤ β ≤ 1`; it answers `reward s` (`ValueError`) iff some row
+    (state) is entirely `-inf`. -/
+theorem constructor_prod_iff (beta : K) (R : List (List (Ext K))) (Q : List (List (List K)))
+    (hshape : (R.all (·.length == (R.headD []).length) ∧ Q.length = R.length ∧
+      Q.all (fun qs => qs.length == (R.headD []).length && qs.all (·.length == R.length))) ) :
+    (mkProd beta R Q = .ok { n := R.length, m := (R.headD []).length, beta := beta, R := R, Q := Q } ↔
+      (∀ i, i < R.length → ∃ r ∈ R.getD i [], r ≠ .ninf) ∧ 0 ≤ beta ∧ beta ≤ 1) ∧
+    ((∃ s, mkProd beta R Q = .error (.reward s)) ↔
+      ∃ i, i < R.length ∧ ∀ r ∈ R.getD i [], r = .ninf) :=
+  mkProd_spec beta R Q hshape
+
+variable [Add K] [Mul K]
+
+/-- every accepted product-form instance is feasible (`ProdDDP.Feasible`), the Bellman operator
+    is finite on it, and backward induction returns for every horizon and terminal value -/
+theorem accepted_prod_total (beta : K) (R : List (List (Ext K))) (Q : List (List (List K)))
+    (d : ProdDDP K) (h : mkProd beta R Q = .ok d) :
+    d.Feasible ∧ (∀ v, ∃ tv : List K, (d.bellman v).1 = tv.map Ext.fin) ∧
+    ∀ T vTerm, (backwardInduction (DDP.prod d) T vTerm).isSome = true := by
+  have hf := accepted_prod_feasible beta R Q d h
+  exact ⟨hf, fun v => prod_bellman_finite d hf v, fun T vTerm => prod_backward_total d hf T vTerm⟩
+
+end accepted_prod
+
+/-! ## backward induction is an upper bound for every Markov policy sequence -/
+
+section optimum
+variable {K : Type} [CommRing K] [LinearOrder K] [IsOrderedRing K]
+
+/-- **backward_upper_bound, every horizon.** Feasible SA instance, `β ≥ 0`, non-negative
+    transition rows. Let `σs = [σ_{T-1}, …, σ_0]` be any sequence of `T` policies whose value
+    `T_{σ_0}(… T_{σ_{T-1}} v_T)` is defined (`seqValue`: available actions, finite rewards). Then
+    it is `≤ vs[0]` componentwise, where `(vs, _) = backward_induction(T, v_T)`. Proved by
+    induction on the horizon from monotonicity of `T_σ` and `T_σ v ≤ T v`. -/
+theorem backward_upper_bound (d : SaDDP K) (hf : d.Feasible) (hβ : 0 ≤ d.beta)
+    (hQ : ∀ row ∈ d.Q, ∀ x ∈ row, 0 ≤ x) (T : Nat) (vT : List K)
+    (vs : List (List K)) (ss : List (List Nat))
+    (h : backwardInduction (DDP.sa d) T (some vT) = some (vs, ss))
+    (σs : List (List Nat)) (hT : σs.length = T) (hσ : ∀ σ ∈ σs, σ.length = d.n)
+    (x : List K) (hx : seqValue d σs vT = some x) :
+    ∃ w, vs[0]? = some w ∧ List.Forall₂ (· ≤ ·) x w := by
+  unfold backwardInduction at h
+  simp only [Option.getD_some] at h
+  cases hb : backwardLoop (DDP.sa d) T vT with
+  | none => simp [hb] at h
+  | some p =>
+    obtain ⟨vs', ss'⟩ := p
+    simp only [hb, Option.map_some, Option.some.injEq, Prod.mk.injEq] at h
+    obtain ⟨rfl, rfl⟩ := h
+    subst hT
+    have hrefl : List.Forall₂ (· ≤ ·) vT vT :=
+      forall₂_of_getElem? _ _ _ rfl (fun i a c ha hc => by rw [ha] at hc; cases hc; exact le_refl _)
+    exact seqValue_le_backward d hf hβ hQ σs hσ vT vT x vs' ss' hrefl hx hb
+
+
+/-- **backward_is_optimum, every horizon and terminal value.** If moreover the pairs of each
+    state carry distinct actions (`SaDDP.DistinctActions`; true for every instance built from
+    distinct pairs), then `vs[0]` *is* the maximum over all Markov policy sequences of the
+    `T`-period value: it is the value of the reported sequence `σs` (read from the last period
+    backwards) and an upper bound for the value of every sequence. -/
+theorem backward_is_optimum (d : SaDDP K) (hf : d.Feasible) (hdist : d.DistinctActions)
+    (hβ : 0 ≤ d.beta) (hQ : ∀ row ∈ d.Q, ∀ x ∈ row, 0 ≤ x) (T : Nat) (vT : List K)
+    (vs : List (List K)) (ss : List (List Nat))
+    (h : backwardInduction (DDP.sa d) T (some vT) = some (vs, ss)) :
+    ∃ w, vs[0]? = some w ∧ seqValue d ss.reverse vT = some w ∧
+      ∀ (σs : List (List Nat)) (x : List K), σs.length = T → (∀ σ ∈ σs, σ.length = d.n) →
+        seqValue d σs vT = some x → List.Forall₂ (· ≤ ·) x w := by
+  have h' := h
+  unfold backwardInduction at h
+  simp only [Option.getD_some] at h
+  cases hb : backwardLoop (DDP.sa d) T vT with
+  | none => simp [hb] at h
+  | some p =>
+    obtain ⟨vs', ss'⟩ := p
+    simp only [hb, Option.map_some, Option.some.injEq, Prod.mk.injEq] at h
+    obtain ⟨rfl, rfl⟩ := h
+    obtain ⟨w, hw, hseq⟩ := backward_attained d hf hdist T vT vs' ss' hb
+    refine ⟨w, hw, hseq, ?_⟩
+    intro σs x hT hσ hx
+    obtain ⟨w', hw', hle⟩ := backward_upper_bound d hf hβ hQ T vT _ _ h' σs hT hσ x hx
+    rw [hw] at hw'
+    cases hw'
+    exact hle
+
+
+/-- **backward induction is optimal on every accepted instance with distinct pairs**
+    (SA-pair form, pairs in any order, non-negative transition rows): for every horizon `T` and
+    terminal value, `vs[0]` is the value of the reported policy sequence and dominates the
+    value of every sequence of `T` policies. All hypotheses are about the *given* arrays. -/
+theorem accepted_backward_is_optimum (n : Nat) (beta : K) (R : List (Ext K)) (Q : List (List K)) (S A : List Nat)
+    (hR : R.length = Q.length) (hSl : S.length = Q.length) (hAl : A.length = Q.length)
+    (hS : ∀ s ∈ S, s < n)
+    (hnodup : ∀ k k', k < S.length → k' < S.length → S[k]? = S[k']? → A[k]? = A[k']? → k = k')
+    (hQ : ∀ row ∈ Q, ∀ x ∈ row, 0 ≤ x)
+    (d : SaDDP K) (hd : mkSa n beta R Q S A = .ok d) (T : Nat) (vT : List K) :
+    ∃ vs ss w, backwardInduction (DDP.sa d) T (some vT) = some (vs, ss) ∧
+      vs[0]? = some w ∧ seqValue d ss.reverse vT = some w ∧
+      ∀ (σs : List (List Nat)) (x : List K), σs.length = T → (∀ σ ∈ σs, σ.length = d.n) →
+        seqValue d σs vT = some x → List.Forall₂ (· ≤ ·) x w := by
+  have hf := (accepted_sa_feasible n beta R Q S A hR hSl hAl hS d hd).1
+  have hde := mkSa_ok_eq n beta R Q S A d hd
+  have hβ : 0 ≤ d.beta := by
+    have h1 := hd
+    rw [hde] at h1
+    have := ((mkSa_ok_iff n beta R Q S A hR hSl hAl hS).mp h1).2.1
+    rw [hde]
+    unfold arrangeSa
+    by_cases hs : hasSortedSa S A = true
+    · rw [if_pos hs]; exact this
+    · rw [if_neg hs]; exact this
+  have hdist : d.DistinctActions := by
+    rw [hde]; exact arrangeSa_distinct n beta R Q S A (by omega) (by omega) (by omega) hS hnodup
+  have hQd : ∀ row ∈ d.Q, ∀ x ∈ row, 0 ≤ x := by
+    rw [hde]; exact arrangeSa_Q_nonneg n beta R Q S A hQ
+  have htot := accepted_sa_backward_total n beta R Q S A hR hSl hAl hS d hd T (some vT)
+  cases hb : backwardInduction (DDP.sa d) T (some vT) with
+  | none => rw [hb] at htot; cases htot
+  | some p =>
+    obtain ⟨vs, ss⟩ := p
+    obtain ⟨w, h1, h2, h3⟩ := backward_is_optimum d hf hdist hβ hQd T vT vs ss hb
+    exact ⟨vs, ss, w, rfl, h1, h2, h3⟩
+
+end optimum
+
+/-- non-vacuity: `exSa` (β = 1, 0/1 transition rows) is feasible; the policy sequence
+    `[[1,0],[0,0]]` has value `[2,0]`, and backward induction gives `vs[0] = [2,0]` -/
+example : exSa.Feasible :=
+  ⟨by decide, by decide, by
+    intro i hi
+    have : i = 0 ∨ i = 1 := by have : i < 2 := hi; omega
+    rcases this with rfl | rfl
+    · exact ⟨by decide, by decide, 0, by decide, by decide, by decide⟩
+    · exact ⟨by decide, by decide, 2, by decide, by decide, by decide⟩⟩
+example : seqValue exSa [[1, 0], [0, 0]] [0, 0] = some [2, 0] := by decide
+example : exSa.DistinctActions := by
+  intro i hi j j' h1 h2 h3 h4 h
+  have hi' : i = 0 ∨ i = 1 := by have : i < 2 := hi; omega
+  rcases hi' with rfl | rfl
+  · have a1 : exSa.aIndptr.getD 0 0 = 0 := by decide
+    have a2 : exSa.aIndptr.getD (0 + 1) 0 = 2 := by decide
+    rw [a1] at h1 h3; rw [a2] at h2 h4
+    have hj : j = 0 ∨ j = 1 := by omega
+    have hj' : j' = 0 ∨ j' = 1 := by omega
+    rcases hj with rfl | rfl <;> rcases hj' with rfl | rfl <;> first | rfl | (exact absurd h (by decide))
+  · have a1 : exSa.aIndptr.getD 1 0 = 2 := by decide
+    have a2 : exSa.aIndptr.getD (1 + 1) 0 = 3 := by decide
+    rw [a1] at h1 h3; rw [a2] at h2 h4
+    omega
+
+example : backwardInduction (DDP.sa exSa) 2 none
+    = some ([[2, 0], [1, 0], [0, 0]], [[0, 0], [0, 0]]) := by decide
+example : backwardInduction (DDP.prod exProd) 2 (some [1, 2])
+    = some ([[15, 17], [5, 7], [1, 2]], [[1, 1], [1, 1]]) := by decide
 
 end QE.C09
